@@ -125,7 +125,13 @@ theorem opMove_ok {o r op} (hr : RootOK r) : OutOK (opMove o r op) := by
         cases hg : conGet o self con key with
         | panic => exact absurd hg (conGet_ne_panic hc)
         | err e => trivial
-        | ok x => exact liftAct_ok (conRemove_ok hc hn) (conGet_NP hs hn hg)
+        | ok x =>
+          have hx : NP x := conGet_NP hs hn hg
+          have hv : NP (if key = [] then (deepCopy o.esc x).1 else x) := by
+            split
+            · cases x <;> simp [deepCopy, NP]
+            · exact hx
+          exact liftAct_ok (conRemove_ok hc hn) hv
       have hcont : ∀ r1 val, RootOK r1 → NP val → OutOK (liftWalk r1 (addWalk o r1 op.path val)
           (fun _ => .err .missing)) := by
         intro r1 val h1 hv
